@@ -105,6 +105,64 @@ Theorem C16_events_replay :
 Proof. exact events_replay. Qed.
 Print Assumptions C16_events_replay.
 
+(* ---- joined shapes (join.go, mergejoin.go) *)
+
+(* JoinWithMergeCollection: for every merge function, every event sequence on the sub-collections and every
+   interleaving of their listeners, once nothing is in flight the contents are the merge of the holders in
+   collection order. *)
+Theorem C16_mergejoin_state_is_function :
+  forall (n : nat) (mg : list N -> N) xs,
+    let W := mrun n mg mw0 xs in
+    (forall i, mw_q W i = []) -> forall k, mw_out W k = merged n mg (mw_subs W) k.
+Proof. exact mergejoin_state_is_function. Qed.
+Print Assumptions C16_mergejoin_state_is_function.
+
+(* ... and every subscriber (late ones start with Adds of the current contents) replays to the contents. *)
+Theorem C16_mergejoin_events_replay :
+  forall (n : nat) (mg : list N -> N) xs,
+    let W := mrun n mg mw0 xs in
+    forall h evs, In (h, evs) (mw_handlers W) -> forall k, replay evs k = mw_out W k.
+Proof. exact mergejoin_events_replay. Qed.
+Print Assumptions C16_mergejoin_events_replay.
+
+(* but its streams are NOT well-formed: the Delete of the last holder is emitted twice
+   (finding mergejoin-delete-emitted-twice; reproduced on the real krt by the class-mergejoin-with-full-delete cases) *)
+Theorem C16_mergejoin_stream_wellformed_refuted :
+  let W := mrun 1 (fun vs => fold_left (fun acc v => acc * 10 + v + 1) vs 0) mw0 mj_witness in
+  mw_handlers W = [(1, [EAdd 7 1; EDel 7 1; EDel 7 0])] /\
+  stream_wf_weak fempty [EAdd 7 1; EDel 7 1; EDel 7 0] = false.
+Proof. exact mergejoin_double_delete. Qed.
+Print Assumptions C16_mergejoin_stream_wellformed_refuted.
+
+(* JoinCollection (conflict resolving): for every event sequence and interleaving, once nothing is in flight
+   processedState — what a late RegisterBatch(f, true) replays — and the replay of every subscriber's stream equal
+   the contents, i.e. the first collection holding a key wins. *)
+Theorem C16_join_converges :
+  forall (n : nat) xs, Forall (jact_ok n) xs ->
+    let W := jrun n jw0 xs in
+    (forall i, jw_q W i = []) ->
+    (forall k, jw_proc W k = join_get n (jw_subs W) k) /\
+    (forall h evs, In (h, evs) (jw_handlers W) -> forall k, replay evs k = join_get n (jw_subs W) k).
+Proof. exact join_converges. Qed.
+Print Assumptions C16_join_converges.
+
+Theorem C16_join_events_replay :
+  forall (n : nat) xs, Forall (jact_ok n) xs ->
+    let W := jrun n jw0 xs in
+    forall h evs, In (h, evs) (jw_handlers W) -> forall k, replay evs k = jw_proc W k.
+Proof. exact join_events_replay. Qed.
+Print Assumptions C16_join_events_replay.
+
+(* but a join's stream is NOT well-formed for every schedule: refreshEvents reads the live sub-collections, so
+   with two Adds of one key in flight the subscriber's first event for the key is an Update
+   (finding join-inflight-unknown-key; harness/c16/join_inflight_demo_test.go hits it on the real krt) *)
+Theorem C16_join_stream_wellformed_refuted :
+  let W := jrun 2 jw0 join_inflight_witness in
+  jw_handlers W = [(1, [EUpd 7 2 1])] /\ stream_wf_weak fempty [EUpd 7 2 1] = false /\
+  (forall i, In i [0; 1] -> jw_q W i = []).
+Proof. exact join_inflight_unknown_key. Qed.
+Print Assumptions C16_join_stream_wellformed_refuted.
+
 (* The table-driven transformations used by the correspondence harness satisfy the purity hypothesis. *)
 Theorem C16_table_transformations_pure :
   forall progs i phi psi,
